@@ -2,6 +2,12 @@
 use super::*;
 use crate::__verif::h::*;
 
+/// the catalogue of circle drawings (private static of the parent module)
+#[cfg(svgbob_verif)]
+pub(crate) fn catalogue() -> &'static Vec<(&'static str, Horizontal, f32, f32, Cell)> {
+    &CIRCLE_ART_MAP
+}
+
 #[cfg(kani)]
 pub(crate) mod k {
     use super::*;
